@@ -394,7 +394,8 @@ def _task_consistency(task):
             with case_alarm(60):
                 doc = make_doc(item)
                 for style in ("xtce", "default"):
-                    d = load_doc(doc, style)
+                    # the second rendering always carries the schema's optional decorations (descriptions on entries, ancillary data ...)
+                    d = load_doc(doc, style, extra_attrs=(style == "default"))
                     t.evals += 1
                     probs = consistency_problems(d)
                     t.outcomes["consistent" if not probs else "inconsistent"] += 1
